@@ -14,7 +14,7 @@ def make_case(seed, tier, **feat):
     knobs.ns_depth = r.choice([1, 2, 3])
     knobs.members = r.choice([3, 5, 7])
     f = dict(param_use=0.45, this_use=0.12, class_template_p=0.75, member_template_p=0.35,
-             typedefs=True, includes=False, overloads=0.2, reopen_ns=0.2, inst_namesakes=0.15, clone_templates=0.3)
+             typedefs=True, includes=False, overloads=0.2, reopen_ns=0.2, inst_namesakes=0.15, clone_templates=0.3, capture_names=0.25)
     f.update(feat)
     g = gen.WildGen(seed, knobs, **f)
     return g.module()
